@@ -253,6 +253,9 @@ def build_harness():
         if os.path.lexists(link):
             os.remove(link)
         os.symlink(REPO, link)
+        # the dependency path stays `repo`, so cargo's mtime fingerprint cannot see that the sources
+        # behind the link changed (VERIF_REPO switch): force chrono to be rebuilt
+        sh('cargo clean --release --offline -p chrono 2>&1', cwd=hdir, timeout=300)
     lock = os.path.join(hdir, 'Cargo.lock')
     if not os.path.exists(lock):
         shutil.copy(os.path.join(REPO, 'Cargo.lock'), lock)
